@@ -126,9 +126,9 @@ def runCase (c : Case) (pending : Option String) (premiumDefault : Int) : Option
     | (.ok _, p) => (p, s!"ok pending={fmtPending p}")
 
 def constsLine : String :=
-  s!"pad={Pool.Gen.heightHintPadding} unit={Pool.Gen.baseSupplyUnit} p2wsh={Pool.Gen.p2wshOutputSize} " ++
-  s!"input={Pool.Gen.inputSize} scale={Pool.Gen.witnessScaleFactor} tapwit={Pool.Gen.taprootMultiSigWitnessSize} " ++
-  s!"wit={Pool.Gen.multiSigWitnessSize} latest={Pool.Gen.latestBatchVersion}"
+  s!"pad={Pool.Gen.heightHintPadding} unit={Pool.Gen.Batch.baseSupplyUnit} p2wsh={Pool.Gen.Batch.p2wshOutputSize} " ++
+  s!"input={Pool.Gen.Batch.inputSize} scale={Pool.Gen.Batch.witnessScaleFactor} tapwit={Pool.Gen.Batch.taprootMultiSigWitnessSize} " ++
+  s!"wit={Pool.Gen.Batch.multiSigWitnessSize} latest={Pool.Gen.Batch.latestBatchVersion}"
 
 abbrev DrvSt := Option String
 def drvInit : DrvSt := none
